@@ -1,0 +1,80 @@
+//go:build verif
+
+// Contracts for package collector (comment-only with the verif tag off; read by /verif/gocv).
+// Integer mode int: mathematical integers, every arithmetic operation carries a no-overflow
+// obligation.
+
+package collector
+
+// ---------------------------------------------------------------------------
+// C06: the bounded stores keep the best `size` matches in order
+// ---------------------------------------------------------------------------
+
+// The comparator installed in a store is a total preorder with sign antisymmetry.
+//@ spec ordered(cmp collectorCompare) bool = all(a, *search.DocumentMatch, cmp(a, a) == 0) && \
+//@     all(a, *search.DocumentMatch, all(b, *search.DocumentMatch, iff(cmp(a, b) < 0, cmp(b, a) > 0))) && \
+//@     all(a, *search.DocumentMatch, all(b, *search.DocumentMatch, all(d, *search.DocumentMatch, implies(cmp(a, b) <= 0 && cmp(b, d) <= 0, cmp(a, d) <= 0)))) && \
+//@     all(a, *search.DocumentMatch, all(b, *search.DocumentMatch, all(d, *search.DocumentMatch, implies(cmp(a, b) < 0 && cmp(b, d) <= 0, cmp(a, d) < 0)))) && \
+//@     all(a, *search.DocumentMatch, all(b, *search.DocumentMatch, all(d, *search.DocumentMatch, implies(cmp(a, b) <= 0 && cmp(b, d) < 0, cmp(a, d) < 0))))
+
+// all-pairs sortedness of the first n elements
+//@ spec sortedBy(cmp collectorCompare, s search.DocumentMatchCollection, n int) bool = forall(p, 0, n, forall(q, p+1, n, cmp(s[p], s[q]) <= 0))
+//@ spec member(s search.DocumentMatchCollection, n int, x *search.DocumentMatch) bool = exists(k, 0, n, s[k] == x)
+
+//@ func collectStoreSlice.add
+//@   props C06
+//@   mode int
+//@   requires c != nil && c.compare != nil && ordered(c.compare) && sortedBy(c.compare, c.slice, len(c.slice))
+//@   modifies c.slice, c.slice[*]
+//@   ensures len(c.slice) == old(len(c.slice)) + 1 && sortedBy(c.compare, c.slice, len(c.slice))
+//@   ensures exists(p, 0, len(c.slice), c.slice[p] == doc && forall(k, 0, p, c.slice[k] == old(c.slice[k])) && forall(k, p+1, len(c.slice), c.slice[k] == old(c.slice[k-1])) \
+//@             && forall(k, 0, p, c.compare(c.slice[k], doc) <= 0) && forall(k, p+1, len(c.slice), c.compare(doc, c.slice[k]) < 0), i)
+//@   ensures implies(old(distinctElems(c.slice, len(c.slice))) && !old(member(c.slice, len(c.slice), doc)), distinctElems(c.slice, len(c.slice)))
+//@   loop 0: invariant 0 <= i && i <= len(c.slice) && forall(k, i, len(c.slice), c.compare(doc, c.slice[k]) < 0)
+//@   loop 0: decreases i
+
+//@ func collectStoreSlice.removeLast
+//@   props C06
+//@   mode int
+//@   requires c != nil && len(c.slice) > 0
+//@   modifies c.slice
+//@   ensures result == old(c.slice[len(c.slice)-1]) && len(c.slice) == old(len(c.slice)) - 1
+//@   ensures base(c.slice) == old(base(c.slice)) && forall(k, 0, len(c.slice), c.slice[k] == old(c.slice[k]))
+
+//@ func collectStoreSlice.len
+//@   props C06
+//@   mode int
+//@   requires c != nil
+//@   ensures result == len(c.slice)
+
+// ---- the store interface: a bounded set of distinct matches ordered by the comparator ----
+
+//@ spec storeElems(st collectorStore) search.DocumentMatchCollection = ite(typeis(st, *collectStoreSlice), st.(*collectStoreSlice).slice, st.(*collectStoreHeap).heap)
+//@ spec storeCmp(st collectorStore) collectorCompare = ite(typeis(st, *collectStoreSlice), st.(*collectStoreSlice).compare, st.(*collectStoreHeap).compare)
+//@ spec storeLen(st collectorStore) int = len(storeElems(st))
+//@ spec storeHas(st collectorStore, x *search.DocumentMatch) bool = member(storeElems(st), storeLen(st), x)
+//@ spec distinctElems(s search.DocumentMatchCollection, n int) bool = forall(p, 0, n, forall(q, p+1, n, s[p] != s[q]))
+// heap order of container/heap with Less(i,j) = compare(h[i],h[j]) > 0: a parent never compares below its children
+//@ spec heapInv(cmp collectorCompare, s search.DocumentMatchCollection, n int) bool = forall(k, 1, n, cmp(s[(k-1)/2], s[k]) >= 0)
+//@ spec storeOK(st collectorStore) bool = (typeis(st, *collectStoreSlice) || typeis(st, *collectStoreHeap)) && storeCmp(st) != nil && ordered(storeCmp(st)) && \
+//@     distinctElems(storeElems(st), storeLen(st)) && forall(k, 0, storeLen(st), storeElems(st)[k] != nil) && \
+//@     implies(typeis(st, *collectStoreSlice), sortedBy(storeCmp(st), storeElems(st), storeLen(st))) && \
+//@     implies(typeis(st, *collectStoreHeap), heapInv(storeCmp(st), storeElems(st), storeLen(st)))
+
+//@ iface collectorStore.AddNotExceedingSize(st, doc, size)
+//@   props C06
+//@   mode int
+//@   requires st != nil && storeOK(st) && doc != nil && !storeHas(st, doc) && size >= 0
+//@   modifies collectStoreSlice.slice, collectStoreHeap.heap, storeElems(st)[*]
+//@   ensures storeOK(st) && storeCmp(st) == old(storeCmp(st))
+//@   ensures implies(old(storeLen(st)) + 1 <= size, result == nil && storeLen(st) == old(storeLen(st)) + 1)
+//@   ensures implies(old(storeLen(st)) + 1 <= size, all(x, *search.DocumentMatch, implies(storeHas(st, x), old(storeHas(st, x)) || x == doc)))
+//@   ensures implies(old(storeLen(st)) + 1 <= size, storeHas(st, doc) && all(x, *search.DocumentMatch, implies(old(storeHas(st, x)), storeHas(st, x))))
+//@   ensures implies(old(storeLen(st)) + 1 > size, result != nil && storeLen(st) == old(storeLen(st)) && (result == doc || old(storeHas(st, result))) && !storeHas(st, result))
+//@   ensures implies(old(storeLen(st)) + 1 > size, all(x, *search.DocumentMatch, implies(storeHas(st, x), old(storeHas(st, x)) || x == doc)))
+//@   ensures implies(old(storeLen(st)) + 1 > size, all(x, *search.DocumentMatch, implies((old(storeHas(st, x)) || x == doc) && x != result, storeHas(st, x))))
+//@   ensures implies(old(storeLen(st)) + 1 > size, all(x, *search.DocumentMatch, implies(storeHas(st, x), storeCmp(st)(x, result) <= 0)))
+
+//@ func collectStoreSlice.AddNotExceedingSize
+//@   props C06
+//@   implements collectorStore.AddNotExceedingSize
